@@ -369,8 +369,8 @@ class State:
         self.memo_hidden = False    # recomputation: nothing memoised is visible
         self.absent_before = set()
         self.never_found = set()    # terms known to be dimensionless on this path
-        self.found_units = {}       # (type, scale) -> unit a directory look-up by term found
-        self.keyed_names = {}
+        self.found_units = {}       # (directory, symbol) -> unit a directory look-up by symbol found
+        self.rf_tables = []         # (table, symbolic values, extra, value): look-ups by term, keyed unknowns
         self.lookup_memo = {}       # (directory, key) -> found?  (consulted by the calls of a replayed case)
         self.lru = {}               # memoised function -> [(args, kwargs, value)] seen on this path
         self.epoch = 0              # bumped between the calls of a replayed case: ambient state may have changed
@@ -382,12 +382,36 @@ class State:
         self.counter += 1
         return f"{prefix}{self.counter}"
 
-    def fresh_keyed(self, prefix, key):
-        """A name for an unknown that is a function of `key`: the same unknown whenever it is asked for again."""
-        k = (prefix, key)
-        if k not in self.keyed_names:
-            self.keyed_names[k] = self.fresh(prefix)
-        return self.keyed_names[k]
+    def fresh_keyed(self, prefix, rfs, extra=None):
+        """A name for an unknown that is a function of the values `rfs` (and `extra`): the same unknown whenever it
+        is asked for again - values compared under what the path knows *now* (facts learnt since do not split it)."""
+        name = self.rf_table_get("name:" + prefix, rfs, extra)
+        if name is None:
+            name = self.fresh(prefix)
+            self.rf_table_set("name:" + prefix, rfs, extra, name)
+        return name
+
+    # tables keyed by symbolic values: looked up by equality of the normal forms at the time of the look-up
+    def rf_table_get(self, table, rfs, extra=None):
+        found = []
+        for t_, rs_, ex_, val_ in self.rf_tables:
+            if t_ == table and ex_ == extra and len(rs_) == len(rfs) and \
+                    all(self.norm(a).equals(self.norm(b)) for a, b in zip(rs_, rfs)):
+                found.append(val_)
+        if not found:
+            return None
+        if any(v != found[0] for v in found[1:]):
+            # two keys that the path has since learnt to be one were answered differently: no such world
+            raise Infeasible
+        return found[0]
+
+    def rf_table_set(self, table, rfs, extra, val):
+        for i, (t_, rs_, ex_, _v) in enumerate(self.rf_tables):
+            if t_ == table and ex_ == extra and len(rs_) == len(rfs) and \
+                    all(self.norm(a).equals(self.norm(b)) for a, b in zip(rs_, rfs)):
+                self.rf_tables[i] = (t_, rs_, ex_, val)
+                return
+        self.rf_tables.append((table, tuple(rfs), extra, val))
 
     # -- types
     def new_type(self, tid=None, generic=False, **attrs) -> str:
@@ -735,7 +759,8 @@ class State:
         self.epoch += 1
         self.absent_before |= self.known_absent
         self.known_absent = set()
-        self.lookup_memo = {k: v for k, v in self.lookup_memo.items() if v}
+        # (a look-up that failed may succeed now; what was found stays found; dimensionless terms are never found)
+        self.rf_tables = [e for e in self.rf_tables if not (e[0].startswith("lookup:") and e[3] == 0)]
 
     def rnd(self, prec: int, arg: RF) -> RF:
         arg = self.norm(arg)
